@@ -23,6 +23,11 @@ import (
 
 type EncOpts struct {
 	Explicit bool // also spell out zero values, empty lists and maps (what a TS client / OpenAPI consumer may send)
+	// Nulls: every member that is absent from the canonical form because its field is unset (or an empty list / map) is spelled
+	// `null` instead - proto3 JSON accepts null for any field and reads it as the default value. Not applied where an annotation
+	// gives null a meaning of its own (empty_behavior NULL: the empty message) nor to the members a oneof or a flattened field
+	// contributes.
+	Nulls bool
 }
 
 func fopts(fd protoreflect.FieldDescriptor) *descriptorpb.FieldOptions {
@@ -194,6 +199,12 @@ func encodeFieldsInto(obj map[string]any, m protoreflect.Message, prefix string,
 			} else {
 				n = m.Get(fd).List().Len()
 			}
+			if n == 0 && o.Nulls {
+				if err := put(key, nil); err != nil {
+					return err
+				}
+				continue
+			}
 			if n == 0 && !o.Explicit {
 				continue
 			}
@@ -215,6 +226,11 @@ func encodeFieldsInto(obj map[string]any, m protoreflect.Message, prefix string,
 				continue
 			}
 			if !m.Has(fd) {
+				if o.Nulls && extInt(fd, sebufhttp.E_EmptyBehavior) != int32(sebufhttp.EmptyBehavior_EMPTY_BEHAVIOR_NULL) && (fd.ContainingOneof() == nil || fd.ContainingOneof().IsSynthetic()) {
+					if err := put(key, nil); err != nil {
+						return err
+					}
+				}
 				continue
 			}
 			child := m.Get(fd).Message()
@@ -239,13 +255,18 @@ func encodeFieldsInto(obj map[string]any, m protoreflect.Message, prefix string,
 		default:
 			if fd.HasPresence() {
 				if !m.Has(fd) {
-					if IsNullable(fd) {
+					if IsNullable(fd) || (o.Nulls && fd.ContainingOneof() != nil && fd.ContainingOneof().IsSynthetic()) {
 						if err := put(key, nil); err != nil {
 							return err
 						}
 					}
 					continue
 				}
+			} else if !m.Has(fd) && o.Nulls {
+				if err := put(key, nil); err != nil {
+					return err
+				}
+				continue
 			} else if !m.Has(fd) && !o.Explicit {
 				continue
 			}
